@@ -251,15 +251,18 @@ func run(t *testing.T, tape *simrt.Tape) *hx.Outcome {
 		variant = []string{"gzip", "zstd", "external-toc"}[v]
 		if v == 2 {
 			// external TOC: build with the externaltoc compressor; the TOC lives outside the blob
+			unpin := common.PinProcs()
 			comp := externaltoc.NewGzipCompressorWithLevel(1)
 			b, err := estargz.Build(io.NewSectionReader(bytes.NewReader(tarBytes), 0, int64(len(tarBytes))), estargz.WithChunkSize(cs),
 				estargz.WithCompression(&extComp{comp, externaltoc.NewGzipDecompressor(func() ([]byte, error) { return nil, fmt.Errorf("unused") })}))
 			if err != nil {
+				unpin()
 				out.InfraErr = "build(ext): " + err.Error()
 				return out
 			}
 			served, _ = io.ReadAll(b)
 			b.Close()
+			unpin()
 			tocDigest = b.TOCDigest()
 			var tb bytes.Buffer
 			if _, err := comp.WriteTOCTo(&tb); err != nil {
